@@ -9,9 +9,13 @@ def stub_render(ex):
 
 def main(tier):
     ck = Check('C15', tier, ['oam', 'ppu'], bodies='image,image/color,math/bits')
+    ck.bounds = {'L1 scan': 'one checkOverlappingSprite call for any object index / line / OAM contents; one machine cycle at any frame index scans objects 2c, 2c+1 (all 40 over the 20 mode-2 cycles)',
+                 'L2 pixel': 'one renderPixel(x,y) for every x<160, y<144, every VRAM (8 KiB array), OAM (160 bytes), LCDC tile-map/addressing/window/object bits, SCX, SCY, WX 7..166, WY, BGP, OBP0, OBP1; candidate objects restricted to a window of consecutive OAM slots (quick: 10 slots at 0, 15, 30; thorough: 10 slots at every multiple of 5, 20 slots at 0 and 20), other slots not on the line; result equals the reference composition, only that pixel is written, timing state and scan flags unchanged',
+                 'L3 schedule': 'one machine cycle at any frame index renders exactly pixels 4(c-20)..+3 of line LY for 20<=c<60, lines 0-143 (objects/window off in this lemma)',
+                 'outside': '8x16 objects, WX<7, LCDC.0=0, mid-frame register/VRAM/OAM changes, DMA during rendering, the debug frame, more candidate objects on a line than the window size'}
     ck.assumptions = ['lcdInv (C13)', 'scene constant during the frame', 'LCDC: background on, 8x8 objects; WX in 7..166 when the window is on']
     ck.run([('ppu', 'VerifSpriteScan', {}), ('ppu', 'VerifScanSchedule', {})], timeout_ms=600000, setup=stub_render)
-    jobs = []
+    jobs = [('ppu', 'VerifRenderSchedule', {})]
     wins = [(0, 10), (15, 10), (30, 10)] if tier == 'quick' else [(0, 10), (10, 10), (20, 10), (30, 10), (5, 10), (15, 10), (25, 10), (0, 20), (20, 20)]
     jobs += [('ppu', 'VerifPixel', {'lo': lo, 'n': n}) for lo, n in wins]
     ck.run(jobs, timeout_ms=1800000, max_unwind=64)
